@@ -2,7 +2,7 @@
    real.h and string.h) compute the documented functions of RealDefs.v on
    ALL argument values, and those functions are closed over
    finite-or-undefined values and strict in their fetched arguments. *)
-From Coq Require Import ZArith List Bool Lia Reals Psatz.
+From Coq Require Import ZArith List Bool Lia Reals Psatz Arith.
 From Flocq Require Import Core.
 From Flocq Require Import IEEE754.BinarySingleNaN.
 From VV Require Import Base.F64 Base.Values Interp.Strategy Cxx.CxxMini Gen.Prims Mep.Genome Prims.RealDefs.
@@ -25,7 +25,7 @@ Ltac split_if :=
       end
   end.
 Ltac body :=
-  intros; unfold run_body, fetched_body, run_body_p; repeat (crunch; split_if); crunch; try reflexivity.
+  intros; unfold run_body, fetched_body, run_body_p, run_body_s; repeat (crunch; split_if); crunch; try reflexivity.
 
 (* ================================================================== *)
 (* 1. what each translated body computes, for ALL argument values       *)
@@ -33,25 +33,25 @@ Section Spec.
 Variable lm : libm.
 
 (* ephemeral constants *)
-Lemma real_run p : run_body_p lm real_real_body p = Val (VDouble p).
+Lemma real_run p sv args : run_body_s lm real_real_body (Some p) sv args = Val (VDouble p).
 Proof. body. Qed.
-Lemma integer_run p : run_body_p lm real_integer_body p = Val (VDouble p).
+Lemma integer_run p sv args : run_body_s lm real_integer_body (Some p) sv args = Val (VDouble p).
 Proof. body. Qed.
 
 (* unary *)
-Lemma abs_run a0 : run_body lm real_abs_body [a0] = un_strict (fun x => VDouble (F64.abs x)) a0.
+Lemma abs_run sp sv a0 : run_body_s lm real_abs_body sp sv [a0] = un_strict (fun x => VDouble (F64.abs x)) a0.
 Proof. destruct a0; body. Qed.
-Lemma cos_run a0 : run_body lm real_cos_body [a0] = un_strict (fun x => VDouble (l_cos lm x)) a0.
+Lemma cos_run sp sv a0 : run_body_s lm real_cos_body sp sv [a0] = un_strict (fun x => VDouble (l_cos lm x)) a0.
 Proof. destruct a0; body. Qed.
-Lemma sin_run a0 : run_body lm real_sin_body [a0] = un_strict (fun x => VDouble (l_sin lm x)) a0.
+Lemma sin_run sp sv a0 : run_body_s lm real_sin_body sp sv [a0] = un_strict (fun x => VDouble (l_sin lm x)) a0.
 Proof. destruct a0; body. Qed.
-Lemma ln_run a0 : run_body lm real_ln_body [a0] = un_strict (fun x => guard (l_log lm x)) a0.
+Lemma ln_run sp sv a0 : run_body_s lm real_ln_body sp sv [a0] = un_strict (fun x => guard (l_log lm x)) a0.
 Proof. destruct a0; body. Qed.
-Lemma sqrt_run a0 : run_body lm real_sqrt_body [a0] = un_strict sqrt_val a0.
+Lemma sqrt_run sp sv a0 : run_body_s lm real_sqrt_body sp sv [a0] = un_strict sqrt_val a0.
 Proof. destruct a0; body. Qed.
-Lemma sigmoid_run a0 : run_body lm real_sigmoid_body [a0] = un_strict (fun x => VDouble (sigmoid_op lm x)) a0.
+Lemma sigmoid_run sp sv a0 : run_body_s lm real_sigmoid_body sp sv [a0] = un_strict (fun x => VDouble (sigmoid_op lm x)) a0.
 Proof. destruct a0; body. Qed.
-Lemma length_run a0 : run_body lm real_length_body [a0] = length_val a0.
+Lemma length_run sp sv a0 : run_body_s lm real_length_body sp sv [a0] = length_val a0.
 Proof. destruct a0; body. Qed.
 
 Lemma abs_fetch a0 : fetched_body lm real_abs_body [a0] = [0%nat].
@@ -70,26 +70,26 @@ Lemma length_fetch a0 : fetched_body lm real_length_body [a0] = [0%nat].
 Proof. destruct a0; body. Qed.
 
 (* binary, guarded by isfinite *)
-Lemma add_run a0 a1 : run_body lm real_add_body [a0; a1] = bin_strict (fun x y => guard (F64.add x y)) a0 a1.
+Lemma add_run sp sv a0 a1 : run_body_s lm real_add_body sp sv [a0; a1] = bin_strict (fun x y => guard (F64.add x y)) a0 a1.
 Proof. destruct a0, a1; body. Qed.
-Lemma sub_run a0 a1 : run_body lm real_sub_body [a0; a1] = bin_strict (fun x y => guard (F64.sub x y)) a0 a1.
+Lemma sub_run sp sv a0 a1 : run_body_s lm real_sub_body sp sv [a0; a1] = bin_strict (fun x y => guard (F64.sub x y)) a0 a1.
 Proof. destruct a0, a1; body. Qed.
-Lemma mul_run a0 a1 : run_body lm real_mul_body [a0; a1] = bin_strict (fun x y => guard (F64.mul x y)) a0 a1.
+Lemma mul_run sp sv a0 a1 : run_body_s lm real_mul_body sp sv [a0; a1] = bin_strict (fun x y => guard (F64.mul x y)) a0 a1.
 Proof. destruct a0, a1; body. Qed.
-Lemma div_run a0 a1 : run_body lm real_div_body [a0; a1] = bin_strict (fun x y => guard (F64.div x y)) a0 a1.
+Lemma div_run sp sv a0 a1 : run_body_s lm real_div_body sp sv [a0; a1] = bin_strict (fun x y => guard (F64.div x y)) a0 a1.
 Proof. destruct a0, a1; body. Qed.
-Lemma idiv_run a0 a1 : run_body lm real_idiv_body [a0; a1] = bin_strict (fun x y => guard (idiv_op x y)) a0 a1.
+Lemma idiv_run sp sv a0 a1 : run_body_s lm real_idiv_body sp sv [a0; a1] = bin_strict (fun x y => guard (idiv_op x y)) a0 a1.
 Proof. destruct a0, a1; body. Qed.
-Lemma mod_run a0 a1 : run_body lm real_mod_body [a0; a1] = bin_strict (fun x y => guard (F64.fmod x y)) a0 a1.
+Lemma mod_run sp sv a0 a1 : run_body_s lm real_mod_body sp sv [a0; a1] = bin_strict (fun x y => guard (F64.fmod x y)) a0 a1.
 Proof. destruct a0, a1; body. Qed.
-Lemma max_run a0 a1 : run_body lm real_max_body [a0; a1] = bin_strict (fun x y => guard (F64.fmax x y)) a0 a1.
+Lemma max_run sp sv a0 a1 : run_body_s lm real_max_body sp sv [a0; a1] = bin_strict (fun x y => guard (F64.fmax x y)) a0 a1.
 Proof. destruct a0, a1; body. Qed.
-Lemma aq_run a0 a1 : run_body lm real_aq_body [a0; a1] = bin_strict (fun x y => guard (aq_op x y)) a0 a1.
+Lemma aq_run sp sv a0 a1 : run_body_s lm real_aq_body sp sv [a0; a1] = bin_strict (fun x y => guard (aq_op x y)) a0 a1.
 Proof. destruct a0, a1; body. Qed.
 (* comparisons: a bool converted to value_t is the int alternative *)
-Lemma gt_run a0 a1 : run_body lm real_gt_body [a0; a1] = bin_strict (fun x y => b2i (F64.gtb x y)) a0 a1.
+Lemma gt_run sp sv a0 a1 : run_body_s lm real_gt_body sp sv [a0; a1] = bin_strict (fun x y => b2i (F64.gtb x y)) a0 a1.
 Proof. destruct a0, a1; body. Qed.
-Lemma lt_run a0 a1 : run_body lm real_lt_body [a0; a1] = bin_strict (fun x y => b2i (F64.ltb x y)) a0 a1.
+Lemma lt_run sp sv a0 a1 : run_body_s lm real_lt_body sp sv [a0; a1] = bin_strict (fun x y => b2i (F64.ltb x y)) a0 a1.
 Proof. destruct a0, a1; body. Qed.
 
 Lemma add_fetch a0 a1 : fetched_body lm real_add_body [a0; a1] = bin_fetched a0.
@@ -114,23 +114,23 @@ Lemma lt_fetch a0 a1 : fetched_body lm real_lt_body [a0; a1] = bin_fetched a0.
 Proof. destruct a0, a1; body. Qed.
 
 (* conditionals *)
-Lemma ife_run a0 a1 a2 a3 : run_body lm real_ife_body [a0; a1; a2; a3] = if2_val ife_test a0 a1 a2 a3.
+Lemma ife_run sp sv a0 a1 a2 a3 : run_body_s lm real_ife_body sp sv [a0; a1; a2; a3] = if2_val ife_test a0 a1 a2 a3.
 Proof. destruct a0, a1; body. Qed.
 Lemma ife_fetch a0 a1 a2 a3 : fetched_body lm real_ife_body [a0; a1; a2; a3] = if2_fetched ife_test a0 a1.
 Proof. destruct a0, a1; body. Qed.
-Lemma ifl_run a0 a1 a2 a3 : run_body lm real_ifl_body [a0; a1; a2; a3] = if2_val ifl_test a0 a1 a2 a3.
+Lemma ifl_run sp sv a0 a1 a2 a3 : run_body_s lm real_ifl_body sp sv [a0; a1; a2; a3] = if2_val ifl_test a0 a1 a2 a3.
 Proof. destruct a0, a1; body. Qed.
 Lemma ifl_fetch a0 a1 a2 a3 : fetched_body lm real_ifl_body [a0; a1; a2; a3] = if2_fetched ifl_test a0 a1.
 Proof. destruct a0, a1; body. Qed.
-Lemma ifz_run a0 a1 a2 : run_body lm real_ifz_body [a0; a1; a2] = ifz_val a0 a1 a2.
+Lemma ifz_run sp sv a0 a1 a2 : run_body_s lm real_ifz_body sp sv [a0; a1; a2] = ifz_val a0 a1 a2.
 Proof. destruct a0; body. Qed.
 Lemma ifz_fetch a0 a1 a2 : fetched_body lm real_ifz_body [a0; a1; a2] = ifz_fetched a0.
 Proof. destruct a0; body. Qed.
-Lemma ifb_run a0 a1 a2 a3 a4 : run_body lm real_ifb_body [a0; a1; a2; a3; a4] = ifb_val a0 a1 a2 a3 a4.
+Lemma ifb_run sp sv a0 a1 a2 a3 a4 : run_body_s lm real_ifb_body sp sv [a0; a1; a2; a3; a4] = ifb_val a0 a1 a2 a3 a4.
 Proof. destruct a0, a1, a2; body. Qed.
 Lemma ifb_fetch a0 a1 a2 a3 a4 : fetched_body lm real_ifb_body [a0; a1; a2; a3; a4] = ifb_fetched a0 a1 a2.
 Proof. destruct a0, a1, a2; body. Qed.
-Lemma sife_run a0 a1 a2 a3 : run_body lm string_ife_body [a0; a1; a2; a3] = sife_val a0 a1 a2 a3.
+Lemma sife_run sp sv a0 a1 a2 a3 : run_body_s lm string_ife_body sp sv [a0; a1; a2; a3] = sife_val a0 a1 a2 a3.
 Proof. destruct a0, a1; body. Qed.
 Lemma sife_fetch a0 a1 a2 a3 : fetched_body lm string_ife_body [a0; a1; a2; a3] = sife_fetched a0 a1.
 Proof. destruct a0, a1; body. Qed.
@@ -288,6 +288,267 @@ Proof.
   unfold rarg; cbn. apply finite_sqrt; assumption.
 Qed.
 
+(* ---- constants, comparisons and the tolerance test on the reals ---- *)
+Notation fexp64 := (FLT_exp (-1074) 53).
+Lemma two_eps_val : exists B, two_eps = B754_finite false 4503599627370496 (-103) B.
+Proof. unfold two_eps. vm_compute. eexists. reflexivity. Qed.
+Lemma one_val : exists B, one = B754_finite false 4503599627370496 (-52) B.
+Proof. unfold one. vm_compute. eexists. reflexivity. Qed.
+
+Lemma B2R_two_eps : B2R two_eps = bpow radix2 (-51).
+Proof.
+  destruct two_eps_val as (B & ->). cbn [B2R cond_Zopp].
+  unfold F2R; cbn [Fnum Fexp]. change (IZR (Z.pos 4503599627370496)) with (bpow radix2 52).
+  rewrite <- bpow_plus. reflexivity.
+Qed.
+Lemma B2R_one : B2R one = 1%R.
+Proof.
+  destruct one_val as (B & ->). cbn [B2R cond_Zopp].
+  unfold F2R; cbn [Fnum Fexp]. change (IZR (Z.pos 4503599627370496)) with (bpow radix2 52).
+  rewrite <- bpow_plus. reflexivity.
+Qed.
+Lemma finite_two_eps : F64.is_finite two_eps = true.
+Proof. destruct two_eps_val as (B & ->). reflexivity. Qed.
+Lemma finite_one : F64.is_finite one = true.
+Proof. destruct one_val as (B & ->). reflexivity. Qed.
+
+Lemma Rlt_bool_iff a b : Rlt_bool a b = true <-> (a < b)%R.
+Proof. destruct (Rlt_bool_spec a b); split; intros; try assumption; try reflexivity; try discriminate; lra. Qed.
+Lemma Rle_bool_iff a b : Rle_bool a b = true <-> (a <= b)%R.
+Proof. destruct (Rle_bool_spec a b); split; intros; try assumption; try reflexivity; try discriminate; lra. Qed.
+Lemma ltb_finite x y : F64.is_finite x = true -> F64.is_finite y = true ->
+  F64.ltb x y = Rlt_bool (B2R x) (B2R y).
+Proof.
+  intros Fx Fy. unfold F64.ltb, F64.cmp. rewrite Bcompare_correct by assumption.
+  unfold Rlt_bool. destruct (Rcompare (B2R x) (B2R y)); reflexivity.
+Qed.
+Lemma leb_finite x y : F64.is_finite x = true -> F64.is_finite y = true ->
+  F64.leb x y = Rle_bool (B2R x) (B2R y).
+Proof.
+  intros Fx Fy. unfold F64.leb, F64.cmp. rewrite Bcompare_correct by assumption.
+  unfold Rle_bool. destruct (Rcompare (B2R x) (B2R y)); reflexivity.
+Qed.
+Lemma ltb_nonfinite_l x y : F64.ltb x y = true -> F64.is_nan x = false /\ F64.is_nan y = false.
+Proof. unfold F64.ltb, F64.cmp. destruct x, y; cbn; try discriminate; auto. Qed.
+
+Lemma issmall_iff d : issmall d = true <-> (F64.is_finite d = true /\ (Rabs (B2R d) < bpow radix2 (-51))%R).
+Proof.
+  unfold issmall. split.
+  - intros H. assert (Fd : F64.is_finite d = true).
+    { destruct two_eps_val as (B & E). rewrite E in H. destruct d as [s|s| |s m e Bd]; try reflexivity; cbn in H; try discriminate. }
+    split; [exact Fd|].
+    rewrite ltb_finite in H; [|rewrite finite_abs; exact Fd|exact finite_two_eps].
+    unfold F64.abs in H. rewrite B2R_Babs, B2R_two_eps in H.
+    apply Rlt_bool_iff in H. exact H.
+  - intros (Fd & H).
+    rewrite ltb_finite; [|rewrite finite_abs; exact Fd|exact finite_two_eps].
+    unfold F64.abs. rewrite B2R_Babs, B2R_two_eps. apply Rlt_bool_iff. exact H.
+Qed.
+
+(* ---- IEEE value of the arithmetic operations when the result is finite ---- *)
+Lemma overflow_not_finite (z : f64) s : B2SF z = binary_overflow 53 1024 mode_NE s -> F64.is_finite z = false.
+Proof. intros H. unfold F64.is_finite. rewrite <- is_finite_SF_B2SF, H. reflexivity. Qed.
+
+Lemma add_value x y : F64.is_finite x = true -> F64.is_finite y = true -> F64.is_finite (F64.add x y) = true ->
+  B2R (F64.add x y) = RN (B2R x + B2R y).
+Proof.
+  intros Fx Fy Fr. pose proof (Bplus_correct 53 1024 prec_gt_0_53 prec_lt_emax_53 mode_NE x y Fx Fy) as H.
+  destruct (Rlt_bool _ _) in H.
+  - apply H.
+  - destruct H as (H & _). apply overflow_not_finite in H. unfold F64.add in Fr. congruence.
+Qed.
+Lemma sub_value x y : F64.is_finite x = true -> F64.is_finite y = true -> F64.is_finite (F64.sub x y) = true ->
+  B2R (F64.sub x y) = RN (B2R x - B2R y).
+Proof.
+  intros Fx Fy Fr. pose proof (Bminus_correct 53 1024 prec_gt_0_53 prec_lt_emax_53 mode_NE x y Fx Fy) as H.
+  destruct (Rlt_bool _ _) in H.
+  - apply H.
+  - destruct H as (H & _). apply overflow_not_finite in H. unfold F64.sub in Fr. congruence.
+Qed.
+Lemma mul_value x y : F64.is_finite (F64.mul x y) = true ->
+  B2R (F64.mul x y) = RN (B2R x * B2R y).
+Proof.
+  intros Fr. pose proof (Bmult_correct 53 1024 prec_gt_0_53 prec_lt_emax_53 mode_NE x y) as H.
+  destruct (Rlt_bool _ _) in H.
+  - apply H.
+  - apply overflow_not_finite in H. unfold F64.mul in Fr. congruence.
+Qed.
+Lemma finite_B2R_zero y : F64.is_finite y = true -> B2R y = 0%R -> exists s, y = B754_zero s.
+Proof.
+  destruct y as [s|s| |s m e B]; cbn; intros F H; try discriminate; eauto.
+  exfalso. apply eq_0_F2R in H. destruct s; discriminate.
+Qed.
+Lemma div_value x y : F64.is_finite x = true -> F64.is_finite y = true -> F64.is_finite (F64.div x y) = true ->
+  B2R y <> 0%R /\ B2R (F64.div x y) = RN (B2R x / B2R y).
+Proof.
+  intros Fx Fy Fr.
+  assert (Hy : B2R y <> 0%R).
+  { intros E. destruct (finite_B2R_zero y Fy E) as (s & ->).
+    destruct x as [sx|sx| |sx mx ex Bx]; cbn in Fr; discriminate. }
+  split; [exact Hy|].
+  pose proof (Bdiv_correct 53 1024 prec_gt_0_53 prec_lt_emax_53 mode_NE x y Hy) as H.
+  destruct (Rlt_bool _ _) in H.
+  - apply H.
+  - apply overflow_not_finite in H. unfold F64.div in Fr. congruence.
+Qed.
+Lemma sqrt_value x : B2R (F64.sqrt x) = RN (sqrt (B2R x)).
+Proof. apply (Bsqrt_correct 53 1024 prec_gt_0_53 prec_lt_emax_53 mode_NE x). Qed.
+Lemma abs_value x : B2R (F64.abs x) = Rabs (B2R x).
+Proof. apply B2R_Babs. Qed.
+Lemma floor_value x : B2R (F64.floor x) = IZR (Zfloor (B2R x)) /\ F64.is_finite (F64.floor x) = F64.is_finite x.
+Proof.
+  destruct (Bnearbyint_correct 53 1024 prec_lt_emax_53 mode_DN x) as (H1 & H2 & _).
+  split; [|exact H2]. unfold F64.floor. rewrite H1. apply round_FIX_IZR.
+Qed.
+Lemma fmax_value x y : F64.is_finite x = true -> F64.is_finite y = true ->
+  F64.is_finite (F64.fmax x y) = true /\ B2R (F64.fmax x y) = Rmax (B2R x) (B2R y).
+Proof.
+  intros Fx Fy. unfold F64.fmax, F64.geb. rewrite leb_finite by assumption.
+  replace (F64.is_nan y) with false by (destruct y; try reflexivity; discriminate).
+  rewrite orb_false_r. destruct (Rle_bool_spec (B2R y) (B2R x)) as [H|H].
+  - split; [exact Fx|]. rewrite Rmax_left; auto.
+  - split; [exact Fy|]. rewrite Rmax_right; auto; lra.
+Qed.
+Lemma fmin_value x y : F64.is_finite x = true -> F64.is_finite y = true ->
+  F64.is_finite (F64.fmin x y) = true /\ B2R (F64.fmin x y) = Rmin (B2R x) (B2R y).
+Proof.
+  intros Fx Fy. unfold F64.fmin. rewrite leb_finite by assumption.
+  replace (F64.is_nan y) with false by (destruct y; try reflexivity; discriminate).
+  rewrite orb_false_r. destruct (Rle_bool_spec (B2R x) (B2R y)) as [H|H].
+  - split; [exact Fx|]. rewrite Rmin_left; auto.
+  - split; [exact Fy|]. rewrite Rmin_right; auto; lra.
+Qed.
+
+(* ---- branch theorems on the reals ---- *)
+Lemma ife_branch_real x y : F64.is_finite x = true -> F64.is_finite y = true ->
+  (ife_test x y = true <->
+   (F64.is_finite (F64.sub x y) = true /\ (Rabs (RN (B2R x - B2R y)) < bpow radix2 (-51))%R)).
+Proof.
+  intros Fx Fy. unfold ife_test. rewrite issmall_iff. split; intros (Fr & H); split; try exact Fr.
+  - rewrite <- sub_value by assumption. exact H.
+  - rewrite sub_value by assumption. exact H.
+Qed.
+Lemma ifl_branch_real x y : F64.is_finite x = true -> F64.is_finite y = true ->
+  (ifl_test x y = true <-> (B2R x < B2R y)%R).
+Proof. intros Fx Fy. unfold ifl_test. rewrite ltb_finite by assumption. apply Rlt_bool_iff. Qed.
+Lemma ifb_branch_real x y z : F64.is_finite x = true -> F64.is_finite y = true -> F64.is_finite z = true ->
+  (ifb_outside x y z = false <-> (Rmin (B2R y) (B2R z) <= B2R x <= Rmax (B2R y) (B2R z))%R).
+Proof.
+  intros Fx Fy Fz. unfold ifb_outside, F64.gtb.
+  destruct (fmin_value y z Fy Fz) as (F1 & V1), (fmax_value y z Fy Fz) as (F2 & V2).
+  rewrite !ltb_finite by assumption. rewrite V1, V2.
+  destruct (Rlt_bool_spec (B2R x) (Rmin (B2R y) (B2R z))), (Rlt_bool_spec (Rmax (B2R y) (B2R z)) (B2R x));
+    cbn; split; intros; try discriminate; try reflexivity; try lra.
+Qed.
+
+(* ---- sigmoid and length ---- *)
+Local Existing Instance prec_gt_0_53.
+Lemma RN_le_generic r g : generic_format radix2 fexp64 g -> (r <= g)%R -> (RN r <= g)%R.
+Proof. intros G H. apply round_le_generic; auto with typeclass_instances. Qed.
+Lemma RN_ge_generic r g : generic_format radix2 fexp64 g -> (g <= r)%R -> (g <= RN r)%R.
+Proof. intros G H. apply round_ge_generic; auto with typeclass_instances. Qed.
+Lemma gen_bpow e : (-1074 <= e)%Z -> generic_format radix2 fexp64 (bpow radix2 e).
+Proof. intros. apply generic_format_FLT_bpow; auto with typeclass_instances. Qed.
+Lemma gen_0 : generic_format radix2 fexp64 0%R.
+Proof. apply generic_format_0. Qed.
+Lemma gen_1 : generic_format radix2 fexp64 1%R.
+Proof. change 1%R with (bpow radix2 0). apply gen_bpow. lia. Qed.
+Lemma gen_2 : generic_format radix2 fexp64 2%R.
+Proof. change 2%R with (bpow radix2 1). apply gen_bpow. lia. Qed.
+Lemma small_lt_emax r : (Rabs r <= 2)%R -> Rlt_bool (Rabs r) (bpow radix2 1024) = true.
+Proof.
+  intros H. apply Rlt_bool_true. eapply Rle_lt_trans; [exact H|].
+  change 2%R with (bpow radix2 1). apply bpow_lt. lia.
+Qed.
+
+Lemma unit_finite e : F64.leb zero e = true -> F64.leb e one = true ->
+  F64.is_finite e = true /\ (0 <= B2R e <= 1)%R.
+Proof.
+  intros H0 H1.
+  assert (Fe : F64.is_finite e = true).
+  { destruct one_val as (B & E). rewrite E in H1. unfold zero in H0. rewrite zero_bits in H0.
+    destruct e as [s|[|]| |s m x Be]; try reflexivity; cbn in H0, H1; discriminate. }
+  split; [exact Fe|].
+  rewrite leb_finite in H0, H1; try assumption; try exact finite_one; try reflexivity.
+  apply Rle_bool_iff in H0, H1. rewrite B2R_one in H1. unfold zero in H0. rewrite zero_bits in H0. cbn in H0. lra.
+Qed.
+
+Lemma add_one_unit e : F64.is_finite e = true -> (0 <= B2R e <= 1)%R ->
+  F64.is_finite (F64.add one e) = true /\ (1 <= B2R (F64.add one e) <= 2)%R.
+Proof.
+  intros Fe He.
+  pose proof (Bplus_correct 53 1024 prec_gt_0_53 prec_lt_emax_53 mode_NE one e finite_one Fe) as H.
+  rewrite B2R_one in H.
+  set (r := round _ _ _ _) in H.
+  assert (B : (1 <= r <= 2)%R).
+  { subst r. split; [apply RN_ge_generic; [exact gen_1|lra]|apply RN_le_generic; [exact gen_2|lra]]. }
+  rewrite (small_lt_emax r) in H by (rewrite Rabs_pos_eq; lra).
+  destruct H as (V & F & _). unfold F64.add. rewrite V. split; [exact F|exact B].
+Qed.
+
+Lemma div_unit a s : F64.is_finite a = true -> (0 <= B2R a <= 1)%R -> (1 <= B2R s)%R ->
+  F64.is_finite (F64.div a s) = true.
+Proof.
+  intros Fa Ha Hs.
+  assert (Hn : B2R s <> 0%R) by lra.
+  pose proof (Bdiv_correct 53 1024 prec_gt_0_53 prec_lt_emax_53 mode_NE a s Hn) as H.
+  assert (Q : (0 <= B2R a / B2R s <= 1)%R).
+  { unfold Rdiv. pose proof (Rinv_l (B2R s) Hn) as I1.
+    assert (I2 : (0 < / B2R s)%R) by (apply Rinv_0_lt_compat; lra).
+    assert (I3 : (/ B2R s <= 1)%R) by nra.
+    split; nra. }
+  set (r := round _ _ _ _) in H.
+  assert (B : (0 <= r <= 1)%R).
+  { subst r. split; [apply RN_ge_generic; [exact gen_0|lra]|apply RN_le_generic; [exact gen_1|lra]]. }
+  rewrite (small_lt_emax r) in H by (rewrite Rabs_pos_eq; lra).
+  destruct H as (_ & F & _). unfold F64.div, F64.is_finite. rewrite F. exact Fa.
+Qed.
+
+Lemma B2R_zero : B2R zero = 0%R.
+Proof. unfold zero. rewrite zero_bits. reflexivity. Qed.
+
+Section Sigmoid.
+Variable lm : libm.
+Hypothesis H_exp : exp_unit lm.
+Lemma sigmoid_finite x : F64.is_finite x = true -> F64.is_finite (sigmoid_op lm x) = true.
+Proof.
+  intros Fx. unfold sigmoid_op. fold zero.
+  destruct (F64.geb x zero) eqn:G.
+  - assert (Fn : F64.is_finite (F64.neg x) = true) by (unfold F64.neg, F64.is_finite; rewrite is_finite_Bopp; exact Fx).
+    assert (Ln : F64.leb (F64.neg x) zero = true).
+    { unfold F64.geb in G. rewrite leb_finite in G by (try assumption; reflexivity).
+      rewrite leb_finite by (try assumption; reflexivity). apply Rle_bool_iff in G. apply Rle_bool_iff.
+      unfold F64.neg. rewrite B2R_Bopp. rewrite B2R_zero in *. lra. }
+    destruct (H_exp _ Fn Ln) as (E0 & E1). destruct (unit_finite _ E0 E1) as (Fe & Be).
+    destruct (add_one_unit _ Fe Be) as (Fs & Bs).
+    apply div_unit; [exact finite_one|rewrite B2R_one; lra|lra].
+  - assert (Lx : F64.leb x zero = true).
+    { unfold F64.geb in G. rewrite leb_finite in G by (try assumption; reflexivity).
+      rewrite leb_finite by (try assumption; reflexivity). apply Rle_bool_iff.
+      destruct (Rle_bool_spec (B2R zero) (B2R x)); [discriminate|rewrite B2R_zero in *; lra]. }
+    destruct (H_exp _ Fx Lx) as (E0 & E1). destruct (unit_finite _ E0 E1) as (Fe & Be).
+    destruct (add_one_unit _ Fe Be) as (Fs & Bs).
+    apply div_unit; [exact Fe|exact Be|lra].
+Qed.
+End Sigmoid.
+
+Lemma of_Z_finite n : 0 <= n < 2 ^ 64 -> F64.is_finite (F64.of_Z n) = true.
+Proof.
+  intros Hn.
+  pose proof (binary_normalize_correct 53 1024 prec_gt_0_53 prec_lt_emax_53 mode_NE n 0 false) as H.
+  cbv zeta in H.
+  assert (X : F2R (Float radix2 n 0) = IZR n) by (unfold F2R; cbn; lra).
+  rewrite X in H.
+  set (r := round _ _ _ _) in H.
+  assert (B : (0 <= r <= bpow radix2 64)%R).
+  { subst r. split.
+    - apply RN_ge_generic; [exact gen_0|apply IZR_le; lia].
+    - apply RN_le_generic; [apply gen_bpow; lia|]. change (bpow radix2 64) with (IZR (2^64)). apply IZR_le; lia. }
+  rewrite Rlt_bool_true in H.
+  - apply H.
+  - rewrite Rabs_pos_eq by lra. eapply Rle_lt_trans; [apply B|]. apply bpow_lt. lia.
+Qed.
+
 (* ================================================================== *)
 (* 4. per-primitive contracts                                           *)
 
@@ -295,7 +556,7 @@ Ltac dom_args :=
   unfold closed_on; intros;
   repeat match goal with H : Forall2 _ _ _ |- _ => inversion H; clear H; subst end.
 Ltac len_args :=
-  unfold strict_on; intros lm args i Hlen Hin Hnth;
+  unfold strict_on, run_body; intros lm args i Hlen Hin Hnth;
   repeat (destruct args as [|? args]; [discriminate Hlen|]);
   destruct args; [|discriminate Hlen]; clear Hlen.
 
@@ -357,6 +618,22 @@ Proof.
   intros; apply rarg_guard.
 Qed.
 
+Lemma length_closed : closed_on lm real_length_body [(fun v => v = VVoid \/ exists s, v = VString s /\ Z.of_nat (length s) < 2 ^ 64)] rarg.
+Proof.
+  dom_args. rewrite length_run.
+  match goal with H : _ \/ _ |- _ => destruct H as [->|(s & -> & Hs)] end; cbn; eexists; split; try reflexivity.
+  unfold rarg; cbn. apply of_Z_finite. lia.
+Qed.
+
+Section SigmoidClosed.
+Hypothesis H_exp : exp_unit lm.
+Lemma sigmoid_closed : closed_on lm real_sigmoid_body [rarg] rarg.
+Proof.
+  dom_args. rewrite sigmoid_run. apply un_strict_closed; auto; [reflexivity|].
+  intros u Fx. unfold rarg; cbn. apply sigmoid_finite; assumption.
+Qed.
+End SigmoidClosed.
+
 Section SinCos.
 Hypothesis H_sincos : sincos_finite lm.
 Lemma sin_closed : closed_on lm real_sin_body [rarg] rarg.
@@ -373,9 +650,9 @@ End SinCos.
 
 (* ---- ephemeral constants ---- *)
 Lemma real_closed p : F64.is_finite p = true -> returns rarg (run_body_p lm real_real_body p).
-Proof. intros Fp. rewrite real_run. eexists; split; [reflexivity|exact Fp]. Qed.
+Proof. intros Fp. unfold run_body_p. rewrite real_run. eexists; split; [reflexivity|exact Fp]. Qed.
 Lemma integer_closed p : F64.is_finite p = true -> returns rarg (run_body_p lm real_integer_body p).
-Proof. intros Fp. rewrite integer_run. eexists; split; [reflexivity|exact Fp]. Qed.
+Proof. intros Fp. unfold run_body_p. rewrite integer_run. eexists; split; [reflexivity|exact Fp]. Qed.
 
 (* ---- conditionals: whatever property the two branch arguments (and the
    undefined value) have, the result has ---- *)
@@ -439,6 +716,337 @@ Lemma sife_strict' lm : strict_on lm string_ife_body 4.
 Proof. revert lm. len_args. rewrite sife_fetch in Hin. rewrite sife_run. eapply sife_strict; eassumption. Qed.
 
 (* ================================================================== *)
+(* 4b. programs: closure of every well-typed expression tree             *)
+(* tree induction with the hypothesis on all children *)
+Fixpoint all_kids (P : tree -> Prop) (l : list tree) : Prop :=
+  match l with [] => True | k :: r => P k /\ all_kids P r end.
+Lemma tree_ind' (P : tree -> Prop) :
+  (forall s par kids, all_kids P kids -> P (Node s par kids)) -> forall t, P t.
+Proof.
+  intros H. fix IH 1. intros [s par kids]. apply H.
+  induction kids as [|k r IHr]; cbn; [exact I|]. split; [apply IH|exact IHr].
+Qed.
+
+Lemma run_strat_stub st par vals vars :
+  run_strat st par (map Val vals) vars = run_stub st (arg_stub (Some par) vars vals).
+Proof.
+  induction st as [o|i k IH|k IH|i k IH]; cbn.
+  - reflexivity.
+  - rewrite nth_error_map. destruct (nth_error vals i); cbn; [apply IH|reflexivity].
+  - apply IH.
+  - destruct (vars i); [apply IH|reflexivity].
+Qed.
+
+Lemma good_real_rarg v : good KReal v <-> rarg v.
+Proof. unfold good, rarg. destruct v; cbn; tauto. Qed.
+Lemma good_void k : good k VVoid.
+Proof. destruct k; reflexivity. Qed.
+Lemma good_fou k v : good k v -> fou v.
+Proof. unfold good, fou. destruct v, k; cbn; congruence. Qed.
+
+Definition argok (kc : nat -> kind) (vals : list value) (cats : list nat) : Prop :=
+  Forall2 (fun v c => good (kc c) v) vals cats.
+
+Lemma isk_eq (kc : nat -> kind) k c :
+  match kc c, k with KReal, KReal | KInt, KInt | KStr, KStr => true | _, _ => false end = true -> kc c = k.
+Proof. destruct (kc c), k; intros; try reflexivity; discriminate. Qed.
+
+Ltac shape H A :=
+  match type of H with sig_okb _ _ ?argcats _ = true =>
+    destruct argcats as [|?c [|?c [|?c [|?c [|?c [|?c ?r]]]]]]; cbn in H; try discriminate H
+  end;
+  repeat match goal with
+         | X : argok _ _ _ |- _ => unfold argok in X
+         | X : Forall2 _ _ (_ :: _) |- _ => inversion X; clear X; subst
+         | X : Forall2 _ _ [] |- _ => inversion X; clear X; subst
+         end;
+  repeat match goal with
+         | X : _ && _ = true |- _ => apply andb_true_iff in X; destruct X
+         | X : Nat.eqb _ _ = true |- _ => apply Nat.eqb_eq in X; subst
+         | X : match ?k ?c with KReal => _ | KInt => _ | KStr => _ end = true |- _ =>
+             destruct (k c) eqn:?; try discriminate X; clear X
+         | X : true = true |- _ => clear X
+         end;
+  try discriminate.
+
+Ltac to_rarg :=
+  repeat match goal with
+         | E : ?kc ?c = KReal, G : good (?kc ?c) _ |- _ => rewrite E in G; apply good_real_rarg in G
+         end.
+
+Section Programs.
+Variable lm : libm.
+Hypothesis H_sincos : sincos_finite lm.
+Hypothesis H_exp : exp_unit lm.
+Variable kc : nat -> kind.
+
+Lemma arith1_sound b argcats cat vals sp sv :
+  closed_on lm b [rarg] rarg -> sig_okb kc (SArith 1) argcats cat = true -> argok kc vals argcats ->
+  returns (good (kc cat)) (run_body_s lm b sp sv vals).
+Proof.
+  intros C H A. shape H A. to_rarg.
+  try match goal with E : kc _ = KReal |- _ => rewrite E end.
+  eapply returns_mono; [intros v; apply good_real_rarg|]. apply C. repeat constructor; assumption.
+Qed.
+Lemma arith2_sound b argcats cat vals sp sv :
+  closed_on lm b [rarg; rarg] rarg -> sig_okb kc (SArith 2) argcats cat = true -> argok kc vals argcats ->
+  returns (good (kc cat)) (run_body_s lm b sp sv vals).
+Proof.
+  intros C H A. shape H A. to_rarg.
+  try match goal with E : kc _ = KReal |- _ => rewrite E end.
+  eapply returns_mono; [intros v; apply good_real_rarg|]. apply C. repeat constructor; assumption.
+Qed.
+Lemma cmp_sound b argcats cat vals sp sv :
+  closed_on lm b [rarg; rarg] (fun v => v = VVoid \/ v = VInt 0 \/ v = VInt 1) ->
+  sig_okb kc SCmp argcats cat = true -> argok kc vals argcats ->
+  returns (good (kc cat)) (run_body_s lm b sp sv vals).
+Proof.
+  intros C H A. shape H A. to_rarg.
+  try match goal with E : kc _ = KInt |- _ => rewrite E end.
+  eapply returns_mono; [|apply C; repeat constructor; assumption].
+  intros v [->|[->| ->]]; reflexivity.
+Qed.
+
+Lemma if1_sound b argcats cat vals sp sv :
+  (forall P : value -> Prop, P VVoid -> closed_on lm b [rarg; P; P] P) ->
+  sig_okb kc (SIf 1) argcats cat = true -> argok kc vals argcats ->
+  returns (good (kc cat)) (run_body_s lm b sp sv vals).
+Proof.
+  intros C H A. shape H A. to_rarg.
+  apply C; [apply good_void|repeat constructor; assumption].
+Qed.
+Lemma if2_sound b argcats cat vals sp sv :
+  (forall P : value -> Prop, P VVoid -> closed_on lm b [rarg; rarg; P; P] P) ->
+  sig_okb kc (SIf 2) argcats cat = true -> argok kc vals argcats ->
+  returns (good (kc cat)) (run_body_s lm b sp sv vals).
+Proof.
+  intros C H A. shape H A. to_rarg.
+  apply C; [apply good_void|repeat constructor; assumption].
+Qed.
+Lemma if3_sound b argcats cat vals sp sv :
+  (forall P : value -> Prop, P VVoid -> closed_on lm b [rarg; rarg; rarg; P; P] P) ->
+  sig_okb kc (SIf 3) argcats cat = true -> argok kc vals argcats ->
+  returns (good (kc cat)) (run_body_s lm b sp sv vals).
+Proof.
+  intros C H A. shape H A. to_rarg.
+  apply C; [apply good_void|repeat constructor; assumption].
+Qed.
+Lemma sife_sound argcats cat vals sp sv :
+  sig_okb kc SSife argcats cat = true -> argok kc vals argcats ->
+  returns (good (kc cat)) (run_body_s lm string_ife_body sp sv vals).
+Proof.
+  intros H A. shape H A.
+  apply sife_closed'; [apply good_void|repeat constructor; assumption].
+Qed.
+Lemma len_sound argcats cat vals sp sv :
+  sig_okb kc SLen argcats cat = true -> argok kc vals argcats ->
+  returns (good (kc cat)) (run_body_s lm real_length_body sp sv vals).
+Proof.
+  intros H A. shape H A.
+  eapply returns_mono; [intros v; apply good_real_rarg|]. apply length_closed. constructor; [|constructor].
+  match goal with G : good _ ?x |- _ => try rewrite Heqk0 in G; destruct x; cbn in G; try discriminate G end.
+  - left; reflexivity.
+  - right. eexists; split; [reflexivity|]. unfold good in *. cbn in *. lia.
+Qed.
+Lemma term_sound b argcats cat vals p sv :
+  (forall p sv args, run_body_s lm b (Some p) sv args = Val (VDouble p)) ->
+  F64.is_finite p = true -> sig_okb kc STerm argcats cat = true ->
+  returns (good (kc cat)) (run_body_s lm b (Some p) sv vals).
+Proof.
+  intros C Fp H. destruct argcats; cbn in H; [|discriminate].
+  destruct (kc cat) eqn:E; try discriminate. rewrite C. eexists; split; [reflexivity|exact Fp].
+Qed.
+
+(* every entry of the table is sound for its signature *)
+Lemma table_sound b sg argcats cat vals p sv :
+  In (b, sg) c13_table -> sig_okb kc sg argcats cat = true -> argok kc vals argcats ->
+  F64.is_finite p = true ->
+  returns (good (kc cat)) (run_body_s lm b (Some p) sv vals).
+Proof.
+  intros Hin H A Fp. unfold c13_table in Hin. cbn [In] in Hin.
+  repeat (destruct Hin as [Hin|Hin]; [injection Hin as <- <-|]); [..|destruct Hin].
+  - eapply term_sound; eauto using real_run.
+  - eapply term_sound; eauto using integer_run.
+  - eapply arith1_sound; eauto using abs_closed.
+  - eapply arith2_sound; eauto using add_closed.
+  - eapply arith2_sound; eauto using aq_closed.
+  - eapply arith1_sound; eauto using cos_closed.
+  - eapply arith2_sound; eauto using div_closed.
+  - eapply cmp_sound; eauto using gt_closed.
+  - eapply arith2_sound; eauto using idiv_closed.
+  - eapply if3_sound; eauto using ifb_closed'.
+  - eapply if2_sound; eauto using ife_closed.
+  - eapply if2_sound; eauto using ifl_closed.
+  - eapply if1_sound; eauto using ifz_closed'.
+  - eapply len_sound; eauto.
+  - eapply arith1_sound; eauto using ln_closed.
+  - eapply cmp_sound; eauto using lt_closed.
+  - eapply arith2_sound; eauto using max_closed.
+  - eapply arith2_sound; eauto using mod_closed.
+  - eapply arith2_sound; eauto using mul_closed.
+  - eapply arith1_sound; eauto using sin_closed.
+  - eapply arith1_sound; eauto using sqrt_closed.
+  - eapply arith2_sound; eauto using sub_closed.
+  - eapply arith1_sound; eauto using sigmoid_closed.
+  - eapply sife_sound; eauto.
+Qed.
+
+(* a node: good children outcomes in, good outcome out *)
+Lemma node_sound vars s par vals :
+  sym_ok lm kc vars s -> F64.is_finite par = true -> argok kc vals (s_argcats s) ->
+  returns (good (kc (s_cat s))) (run_strat (s_strat s) par (map Val vals) vars).
+Proof.
+  intros [(b & sg & Hin & Es & Hs)|[(Ha & i & v & Es & Ev & Gv)|(Ha & v & Es & Gv)]] Fp A.
+  - rewrite Es, run_strat_stub. change (run_stub (strategy_of lm b) (arg_stub (Some par) vars vals))
+      with (run_body_s lm b (Some par) vars vals). eapply table_sound; eauto.
+  - rewrite Es. cbn. rewrite Ev. cbn. eexists; split; [reflexivity|exact Gv].
+  - rewrite Es. cbn. eexists; split; [reflexivity|exact Gv].
+Qed.
+
+Lemma program_closed vars t :
+  wt lm kc vars t -> returns (good (kc (root_cat t))) (run_tree vars t).
+Proof.
+  induction t as [s par kids IH] using tree_ind'. cbn [wt root_cat run_tree].
+  intros (Hs & Fp & Hc & Hk).
+  assert (K : exists vals, map (run_tree vars) kids = map Val vals /\ argok kc vals (map root_cat kids)).
+  { clear Hs Hc Fp. induction kids as [|k r IHr]; cbn.
+    - exists []. split; [reflexivity|constructor].
+    - destruct IH as (IHk & IHrest). destruct Hk as (Wk & Wr).
+      destruct (IHk Wk) as (v & Ev & Gv). destruct (IHr IHrest Wr) as (vs & Evs & Gvs).
+      exists (v :: vs). cbn. rewrite Ev, Evs. split; [reflexivity|constructor; assumption]. }
+  destruct K as (vals & Ev & Gv). rewrite Ev. rewrite Hc in Gv. apply node_sound; assumption.
+Qed.
+
+Lemma program_closed_fou vars t : wt lm kc vars t -> returns fou (run_tree vars t).
+Proof. intros W. eapply returns_mono; [intros v; apply good_fou|]. apply program_closed; exact W. Qed.
+End Programs.
+
+Lemma program_closed_both lm : sincos_finite lm -> exp_unit lm ->
+  forall kc vars t, wt lm kc vars t ->
+  returns (good (kc (root_cat t))) (run_tree vars t) /\ returns fou (run_tree vars t).
+Proof.
+  intros H1 H2 kc vars t W.
+  split; [exact (program_closed lm H1 H2 kc vars t W)|exact (program_closed_fou lm H1 H2 kc vars t W)].
+Qed.
+
+(* ================================================================== *)
+(* 4c. values and branches                                               *)
+
+Lemma sub_small_finite x y : F64.is_finite x = true -> F64.is_finite y = true ->
+  (Rabs (RN (B2R x - B2R y)) < bpow radix2 1024)%R ->
+  F64.is_finite (F64.sub x y) = true /\ B2R (F64.sub x y) = RN (B2R x - B2R y).
+Proof.
+  intros Fx Fy Hs. pose proof (Bminus_correct 53 1024 prec_gt_0_53 prec_lt_emax_53 mode_NE x y Fx Fy) as H.
+  rewrite Rlt_bool_true in H by exact Hs. destruct H as (V & F & _). split; [exact F|exact V].
+Qed.
+
+Lemma ife_test_real x y : F64.is_finite x = true -> F64.is_finite y = true ->
+  (ife_test x y = true <-> (Rabs (RN (B2R x - B2R y)) < bpow radix2 (-51))%R).
+Proof.
+  intros Fx Fy. rewrite ife_branch_real by assumption. split; [intros (_ & H); exact H|].
+  intros H. split; [|exact H]. apply sub_small_finite; try assumption.
+  eapply Rlt_trans; [exact H|]. apply bpow_lt. lia.
+Qed.
+
+Section Branches.
+Variable lm : libm.
+
+Lemma ife_branch x y t e : F64.is_finite x = true -> F64.is_finite y = true ->
+  run_body lm real_ife_body [VDouble x; VDouble y; t; e] = Val (if issmall (F64.sub x y) then t else e) /\
+  fetched_body lm real_ife_body [VDouble x; VDouble y; t; e] =
+    [0%nat; 1%nat; if issmall (F64.sub x y) then 2%nat else 3%nat] /\
+  (issmall (F64.sub x y) = true <-> (Rabs (RN (B2R x - B2R y)) < bpow radix2 (-51))%R).
+Proof.
+  intros Fx Fy. unfold run_body. rewrite ife_run, ife_fetch.
+  split; [reflexivity|split; [reflexivity|apply (ife_test_real x y Fx Fy)]].
+Qed.
+
+Lemma ifz_branch x t e :
+  run_body lm real_ifz_body [VDouble x; t; e] = Val (if issmall x then t else e) /\
+  fetched_body lm real_ifz_body [VDouble x; t; e] = [0%nat; if issmall x then 1%nat else 2%nat] /\
+  (issmall x = true <-> F64.is_finite x = true /\ (Rabs (B2R x) < bpow radix2 (-51))%R).
+Proof.
+  unfold run_body. rewrite ifz_run, ifz_fetch. split; [reflexivity|split; [reflexivity|apply issmall_iff]].
+Qed.
+
+Lemma ifl_branch x y t e : F64.is_finite x = true -> F64.is_finite y = true ->
+  run_body lm real_ifl_body [VDouble x; VDouble y; t; e] = Val (if F64.ltb x y then t else e) /\
+  fetched_body lm real_ifl_body [VDouble x; VDouble y; t; e] =
+    [0%nat; 1%nat; if F64.ltb x y then 2%nat else 3%nat] /\
+  (F64.ltb x y = true <-> (B2R x < B2R y)%R).
+Proof.
+  intros Fx Fy. unfold run_body. rewrite ifl_run, ifl_fetch.
+  split; [reflexivity|split; [reflexivity|apply (ifl_branch_real x y Fx Fy)]].
+Qed.
+
+Lemma ifb_branch x y z t e : F64.is_finite x = true -> F64.is_finite y = true -> F64.is_finite z = true ->
+  run_body lm real_ifb_body [VDouble x; VDouble y; VDouble z; t; e] = Val (if ifb_outside x y z then e else t) /\
+  fetched_body lm real_ifb_body [VDouble x; VDouble y; VDouble z; t; e] =
+    [0%nat; 1%nat; 2%nat; if ifb_outside x y z then 4%nat else 3%nat] /\
+  (ifb_outside x y z = false <-> (Rmin (B2R y) (B2R z) <= B2R x <= Rmax (B2R y) (B2R z))%R).
+Proof.
+  intros Fx Fy Fz. unfold run_body. rewrite ifb_run, ifb_fetch.
+  split; [reflexivity|split; [reflexivity|apply (ifb_branch_real x y z Fx Fy Fz)]].
+Qed.
+
+(* what the bodies compute on two (one) doubles of ANY kind, NaN and
+   infinities included: the binary64 operation, guarded *)
+Lemma bodies_ieee x y :
+  run_body lm real_add_body [VDouble x; VDouble y] = Val (guard (F64.add x y)) /\
+  run_body lm real_sub_body [VDouble x; VDouble y] = Val (guard (F64.sub x y)) /\
+  run_body lm real_mul_body [VDouble x; VDouble y] = Val (guard (F64.mul x y)) /\
+  run_body lm real_div_body [VDouble x; VDouble y] = Val (guard (F64.div x y)) /\
+  run_body lm real_idiv_body [VDouble x; VDouble y] = Val (guard (F64.floor (F64.div x y))) /\
+  run_body lm real_mod_body [VDouble x; VDouble y] = Val (guard (F64.fmod x y)) /\
+  run_body lm real_max_body [VDouble x; VDouble y] = Val (guard (F64.fmax x y)) /\
+  run_body lm real_aq_body [VDouble x; VDouble y] =
+    Val (guard (F64.div x (F64.sqrt (F64.add one (F64.mul y y))))) /\
+  run_body lm real_gt_body [VDouble x; VDouble y] = Val (VInt (if F64.ltb y x then 1 else 0)) /\
+  run_body lm real_lt_body [VDouble x; VDouble y] = Val (VInt (if F64.ltb x y then 1 else 0)) /\
+  run_body lm real_abs_body [VDouble x] = Val (VDouble (F64.abs x)) /\
+  run_body lm real_sqrt_body [VDouble x] = Val (if F64.ltb x zero then VVoid else VDouble (F64.sqrt x)) /\
+  run_body lm real_ln_body [VDouble x] = Val (guard (l_log lm x)) /\
+  run_body lm real_sin_body [VDouble x] = Val (VDouble (l_sin lm x)) /\
+  run_body lm real_cos_body [VDouble x] = Val (VDouble (l_cos lm x)) /\
+  run_body lm real_sigmoid_body [VDouble x] =
+    Val (VDouble (if F64.leb zero x then F64.div one (F64.add one (l_exp lm (F64.neg x)))
+                  else F64.div (l_exp lm x) (F64.add one (l_exp lm x)))).
+Proof.
+  unfold run_body.
+  rewrite add_run, sub_run, mul_run, div_run, idiv_run, mod_run, max_run, aq_run, gt_run, lt_run,
+          abs_run, sqrt_run, ln_run, sin_run, cos_run, sigmoid_run.
+  repeat split; reflexivity.
+Qed.
+End Branches.
+
+(* the binary64 operations on the reals, where the result is finite *)
+Lemma ieee_values x y : F64.is_finite x = true -> F64.is_finite y = true ->
+  (F64.is_finite (F64.add x y) = true -> B2R (F64.add x y) = RN (B2R x + B2R y)) /\
+  (F64.is_finite (F64.sub x y) = true -> B2R (F64.sub x y) = RN (B2R x - B2R y)) /\
+  (F64.is_finite (F64.mul x y) = true -> B2R (F64.mul x y) = RN (B2R x * B2R y)) /\
+  (F64.is_finite (F64.div x y) = true -> B2R y <> 0%R /\ B2R (F64.div x y) = RN (B2R x / B2R y)) /\
+  (F64.ltb x zero = false -> F64.is_finite (F64.sqrt x) = true /\ B2R (F64.sqrt x) = RN (sqrt (B2R x))) /\
+  (F64.is_finite (F64.abs x) = true /\ B2R (F64.abs x) = Rabs (B2R x)) /\
+  (F64.is_finite (F64.floor x) = true /\ B2R (F64.floor x) = IZR (Zfloor (B2R x))) /\
+  (F64.is_finite (F64.fmax x y) = true /\ B2R (F64.fmax x y) = Rmax (B2R x) (B2R y)).
+Proof.
+  intros Fx Fy. repeat split.
+  - apply add_value; assumption.
+  - apply sub_value; assumption.
+  - apply mul_value.
+  - apply (div_value x y Fx Fy H).
+  - apply (div_value x y Fx Fy H).
+  - apply finite_sqrt; assumption.
+  - apply sqrt_value.
+  - rewrite finite_abs; exact Fx.
+  - apply abs_value.
+  - rewrite (proj2 (floor_value x)); exact Fx.
+  - apply floor_value.
+  - apply fmax_value; assumption.
+  - apply fmax_value; assumption.
+Qed.
+
+(* ================================================================== *)
 (* 5. the statements of Props/Properties_C13.v                          *)
 
 Lemma arith_closed_all lm :
@@ -484,4 +1092,16 @@ Proof.
     |apply max_strict|apply aq_strict|apply gt_strict|apply lt_strict|apply abs_strict|apply cos_strict
     |apply sin_strict|apply ln_strict|apply sqrt_strict|apply sigmoid_strict|apply length_strict'
     |apply ife_strict|apply ifl_strict|apply ifz_strict'|apply ifb_strict'|apply sife_strict'].
+Qed.
+
+Lemma unary_closed_all lm :
+  closed_on lm real_abs_body [rarg] rarg /\ closed_on lm real_sqrt_body [rarg] rarg /\
+  closed_on lm real_ln_body [rarg] rarg /\
+  (sincos_finite lm -> closed_on lm real_sin_body [rarg] rarg /\ closed_on lm real_cos_body [rarg] rarg) /\
+  (exp_unit lm -> closed_on lm real_sigmoid_body [rarg] rarg) /\
+  closed_on lm real_length_body
+    [(fun v => v = VVoid \/ exists s, v = VString s /\ Z.of_nat (length s) < 2 ^ 64)] rarg.
+Proof.
+  repeat split; [apply abs_closed|apply sqrt_closed|apply ln_closed|apply sin_closed; assumption
+                |apply cos_closed; assumption|apply sigmoid_closed|apply length_closed].
 Qed.
